@@ -31,6 +31,22 @@ func invokeOf(method string) callPred {
 	}
 }
 
+// invokeOnField matches an interface method call whose receiver is loaded from struct field T.f.
+func invokeOnField(method, field string) callPred {
+	return func(call ssa.CallInstruction) bool {
+		com := call.Common()
+		return com.IsInvoke() && com.Method.Name() == method && strings.HasSuffix(flow.FieldOwner(com.Value), field)
+	}
+}
+
+// callOnField matches a static method call whose receiver is loaded from struct field T.f.
+func callOnField(pkg, recv, fn, field string) callPred {
+	return func(call ssa.CallInstruction) bool {
+		com := call.Common()
+		return flow.CalleeIs(call, pkg, recv, fn) && len(com.Args) > 0 && strings.HasSuffix(flow.FieldOwner(com.Args[0]), field)
+	}
+}
+
 // fieldFuncCall matches a dynamic call of a function value loaded from struct field T.f.
 func fieldFuncCall(field string) callPred {
 	return func(call ssa.CallInstruction) bool {
@@ -183,8 +199,12 @@ func C16(c *Ctx) {
 			}},
 		}, nil, nil},
 		{"DHCPv6 lease", "pkg/dhcpv6", "Server", "handleRelease", deleteFrom("Server.leases"), "Server.leases", []c16Res{
-			{"address", callTo("pkg/dhcpv6", "Server", "releaseAddress"), nilField("Lease.Address")},
-			{"prefix", callTo("pkg/dhcpv6", "Server", "releasePrefix"), nilField("Lease.Prefix")},
+			// leaf effects (the helpers releaseAddress/releasePrefix are summarised, or may have been inlined by hand):
+			// the external allocator's Release, else the legacy pool's; nothing is held when neither is configured
+			{"address", anyOf(callOnField("pkg/allocator", "PoolAllocator", "Release", "Server.addressAllocator"), callTo("pkg/dhcpv6", "AddressPool", "Release")),
+				orAbsent(nilField("Lease.Address"), func(a []string) bool { return nilField("Server.addressAllocator")(a) && nilField("Server.addressPool")(a) })},
+			{"prefix", anyOf(callOnField("pkg/allocator", "PoolAllocator", "Release", "Server.prefixAllocator"), callTo("pkg/dhcpv6", "PrefixPool", "Release")),
+				orAbsent(nilField("Lease.Prefix"), func(a []string) bool { return nilField("Server.prefixAllocator")(a) && nilField("Server.prefixPool")(a) })},
 		}, nil, nil},
 	}
 	for _, t := range terms {
@@ -551,5 +571,5 @@ func c16Guard(cond ssa.Value) (string, []string, bool) {
 	if strings.HasPrefix(name, "call:") && !strings.HasPrefix(name, "call:Has") {
 		return "", nil, false
 	}
-	return name, fields, true
+	return canonGuard(name), fields, true
 }
